@@ -219,6 +219,11 @@ class World:
                     ln = e.read(st, root, (fi_el, "$len"))
                     sz = e.read(st, root, (fi_sz,), _field_ty(prog, WINDOW, fi_sz))
                     st.ctx.add(lin.le(ln[1], sz[1]))
+                    fi_ck = prog.field_index(WINDOW, "chunk_size")
+                    if fi_ck is not None:
+                        # precondition of the library API: a sane chunk size (the server passes 8..=65464)
+                        ck = e.read(st, root, (fi_ck,), _field_ty(prog, WINDOW, fi_ck))
+                        st.ctx.add(lin.le(ck[1], lin.const(1 << 24)))
 
             fr, finals = eng.run(path, setup=setup, region="fn:" + path)
             eng.finals = finals
